@@ -78,9 +78,9 @@ type c13kScenario struct {
 	HostStack    []string  `json:"host_stack"`
 	Pods         []c13kPod `json:"pods"`
 	Ops          []c13kOp  `json:"ops"`
-	Decoys       bool      `json:"decoys"`        // wider-prefix rules at the same priorities, installed before any pod
-	NameInDel    bool      `json:"name_in_del"`   // TeardownCfg carries the host veth name (the CNI leaves it empty)
-	EniIndexZero bool      `json:"eni_index_0"`   // TeardownCfg without ENI index (ENI already detached)
+	Decoys       bool      `json:"decoys"`      // wider-prefix rules at the same priorities, installed before any pod
+	NameInDel    bool      `json:"name_in_del"` // TeardownCfg carries the host veth name (the CNI leaves it empty)
+	EniIndexZero bool      `json:"eni_index_0"` // TeardownCfg without ENI index (ENI already detached)
 }
 
 func c13kGen(t *rapid.T) c13kScenario {
@@ -187,6 +187,13 @@ func c13kGen(t *rapid.T) c13kScenario {
 			Pod:  rapid.IntRange(0, 2).Draw(t, "pod"),
 		}
 	}), 2, 9).Draw(t, "ops")
+	s.Ops[0].Kind = c13kSetup
+	for i := range s.Ops {
+		// mostly address pods that exist, so that teardown usually meets a live pod
+		if s.Ops[i].Pod >= nPods && rapid.IntRange(0, 3).Draw(t, "fold") != 0 {
+			s.Ops[i].Pod %= nPods
+		}
+	}
 	s.Decoys = rapid.IntRange(0, 3).Draw(t, "decoys") != 0
 	s.NameInDel = rapid.Bool().Draw(t, "nameindel")
 	s.EniIndexZero = rapid.IntRange(0, 5).Draw(t, "eniindex0") == 0
@@ -289,6 +296,7 @@ type c13kEnv struct {
 	everUp map[int]bool
 	// known finding C13-exclusive-eth1-host-peer: run multi-network pods with eth0 only
 	dropSecond bool
+	noGuard    bool
 }
 
 func (e *c13kEnv) scaffold(err error, what string) {
@@ -644,6 +652,16 @@ func (e *c13kEnv) verifyLive(p int, when string) {
 				if v6 {
 					base = 2
 				}
+				if !v6 && e.ifaces(p) > 1 && !e.noGuard && vt.Known(c13KnownOifRule) {
+					// known finding: the per-interface oif rule is installed as an IPv4 rule
+					kept := rules[:0]
+					for _, r := range rules {
+						if r.OifName == "" {
+							kept = append(kept, r)
+						}
+					}
+					rules = kept
+				}
 				if len(rules) != base {
 					return fmt.Errorf("%s is disabled but the container has rules %v", famName, rules)
 				}
@@ -909,7 +927,9 @@ func (e *c13kEnv) doTeardown(p int, when string) {
 	}
 }
 
-func c13kRun(c *vt.Ctx, s c13kScenario) {
+func c13kRun(c *vt.Ctx, s c13kScenario) { c13kRunOpt(c, s, false) }
+
+func c13kRunOpt(c *vt.Ctx, s c13kScenario, noGuard bool) {
 	if os.Geteuid() != 0 {
 		c.Inconclusive("needs root")
 	}
@@ -931,16 +951,16 @@ func c13kRun(c *vt.Ctx, s c13kScenario) {
 		runtime.UnlockOSThread()
 		c.Inconclusive("scaffold: current netns: " + err.Error())
 	}
-	e := &c13kEnv{c: c, s: &s, ctx: context.Background(), live: map[int]*c13kLive{}, everUp: map[int]bool{}}
+	e := &c13kEnv{c: c, s: &s, ctx: context.Background(), live: map[int]*c13kLive{}, everUp: map[int]bool{}, noGuard: noGuard}
 	for _, p := range s.Pods {
 		if p.Multi {
 			c.Label("multi-network")
 			if !p.NoPeer {
 				c.Label("multi-network-with-host-peer")
-				if vt.Known("C13-exclusive-eth1-host-peer") {
+				if !noGuard && vt.Known(c13KnownEth1Peer) {
 					// ExclusiveENI.Setup looks up a host-side peer it never created for eth1
 					e.dropSecond = true
-					c.Label("known:C13-exclusive-eth1-host-peer")
+					c.Label("known:" + c13KnownEth1Peer)
 				}
 			}
 		}
@@ -1078,4 +1098,16 @@ func c13kRun(c *vt.Ctx, s c13kScenario) {
 
 func TestVerifC13Kernel(t *testing.T) {
 	vt.Run(t, c13kGen, c13kRun)
+}
+
+// Deterministic witness of C13-exclusive-eth1-host-peer.
+func TestVerifC13KnownExclusiveEth1(t *testing.T) {
+	s := c13kScenario{DP: c13DPExclusive, V4: true, MTU: 1500, GW4: "10.0.0.200", GW6: "fe80::c8",
+		HostIP4: "10.0.0.100", HostIP6: "2400::64",
+		Pods: []c13kPod{{IP4: "10.0.0.2", Prefix4: 24, IP6: "2400::2", Prefix6: 64, Multi: true, IP4b: "10.0.1.8", IP6b: "2400:0:0:1::8"}},
+		Ops:  []c13kOp{{Kind: c13kSetup, Pod: 0}},
+	}
+	vt.Witness(t, "C13", c13KnownEth1Peer,
+		"exclusive-ENI datapath, pod with two interfaces and host peer enabled: Setup for eth1 fails with `error get host veth ..., Link not found` (the peer is created for eth0 only but looked up for every interface)",
+		s, func(c *vt.Ctx, s c13kScenario) { c13kRunOpt(c, s, true) })
 }
